@@ -79,7 +79,7 @@ def added_members(alg):
     return set()
 
 
-def one(env, alg_i, enc_i, curve_i, ser, has_zip, pt, aad, apu, hdr_where, keyset, pick, n_rec=1, alg2_i=None, kid_where=None):
+def one(env, alg_i, enc_i, curve_i, ser, has_zip, pt, aad, apu, hdr_where, keyset, pick, n_rec=1, alg2_i=None, kid_where=None, caller_epk=0):
     """encrypt then decrypt inside env; -> (outcome, info)"""
     alg = ALGS[alg_i]
     encname, ivbits, cekbits, kind = ENCS[enc_i]
@@ -90,6 +90,10 @@ def one(env, alg_i, enc_i, curve_i, ser, has_zip, pt, aad, apu, hdr_where, keyse
     if has_zip:
         prot["zip"] = "DEF"
     extra = {"apu": "APUSEG", "apv": "APVSEG"} if (apu and alg.startswith("ECDH")) else {}
+    if caller_epk and alg.startswith("ECDH"):
+        # the caller's own header already carries an "epk" JWK (1: public, 2: a PRIVATE JWK with "d"): whatever the library does with
+        # it (replace it, refuse it), no private member may be serialized
+        extra = dict(extra, epk=None)      # filled in below, inside the environment, so that its members are decodable there
     env.bind_b64(b"APUSEG", b"Alice")
     env.bind_b64(b"APVSEG", b"Bob")
     reg = JWERegistry(algorithms=ALL_NAMES)
@@ -101,6 +105,9 @@ def one(env, alg_i, enc_i, curve_i, ser, has_zip, pt, aad, apu, hdr_where, keyse
     given = {}
     with env.installed(patches() + [(random, "choice", choice)]):
         try:
+            if "epk" in extra:
+                # a key generated inside the environment (fake native key "gen0"): its exported members decode and import there
+                extra["epk"] = key.__class__.generate_key(CURVES[curve_i], private=True).as_dict(private=(caller_epk == 2))
             if ser == 0:
                 hdr = {"alg": alg, **prot, **extra}
                 if kid_where is not None:
@@ -431,6 +438,33 @@ def roundtrip_options(alg_i: int, enc_i: int, curve_i: int, ser: int, has_zip: b
     return _roundtrip(alg_i, enc_i, curve_i, ser, has_zip, b"pt", b"ad" if ser else None, apu, 0, keyset, pick)
 
 
+def caller_epk(alg_i: int, enc_i: int, curve_i: int, ser: int, hdr_where: int, priv: bool) -> bool:
+    """
+    PRE: (7 <= alg_i <= 10 or 17 <= alg_i <= 20) and enc_i in (0, 3) and curve_i in CURVE_SET and 0 <= ser <= 2 and 0 <= hdr_where <= 2
+    PRE: hdr_where == (2 if ser else 0)
+    POST: _
+    """
+    # (the caller's "epk" sits where the library writes its own: the compact header / the per-recipient header.  A private JWK the
+    # caller puts under "epk" in a SHARED header of a JSON serialization is serialized as given by the unchanged tree, next to the fresh
+    # per-recipient epk; that key is never used for the agreement and is the caller's own data: outside the claim, see DESIGN C12)
+    # C12: the header the caller passes in already holds an "epk" JWK, public or private.  The produced token (protected, shared and
+    # per-recipient headers, every encoded segment) carries no private member and no private octets; producing may also be refused.
+    rt.tick()
+    env = ice.Env(False)
+    pt = b"epk-plaintext"
+    (st, out), info = one(env, alg_i, enc_i, curve_i, ser, False, pt, None, False, hdr_where, False, 0, caller_epk=2 if priv else 1)
+    if st == "encrypt_failed":
+        return isinstance(out, (JoseError, ValueError))
+    if st != "ok" or out.plaintext != pt:
+        return rt.why("caller_epk#roundtrip")
+    merged = out.recipients[0].headers() if ser else out.protected
+    if "epk" not in merged or any(m in merged["epk"] for m in ice.PRIVATE_NAMES):
+        return rt.why("caller_epk#private-member")
+    if ice.leak_scan(env, info["tok"], [], ["r1", "r2", "zz", "snd", "cep"] + ["gen%d" % i for i in range(8)]):
+        return rt.why("caller_epk#leak")
+    return True
+
+
 def two_recipients(alg_i: int, alg2_i: int, enc_i: int, pt: bytes, aad: Optional[bytes]) -> bool:
     """
     PRE: 0 <= alg_i < 21 and 0 <= alg2_i < 21 and enc_i in (0, 3) and len(pt) == 0 and aad is None
@@ -734,6 +768,43 @@ def witness(alg_i: int, enc_i: int, curve_i: int, ser: int, has_zip: bool, pt: b
 
 
 # ------------------------------------------------------------------ replay with real keys and primitives
+def replay_caller_epk(alg_i, enc_i, curve_i, ser, hdr_where, priv):
+    """real keys: the caller's header already carries an "epk" JWK (private if priv); every header of the produced token is decoded
+    and searched for private members and for the octets of the caller key's d"""
+    import warnings
+    warnings.simplefilter("ignore")
+    from vlib import refjose as R
+    from joserfc.jwk import JWKRegistry
+    alg = ALGS[alg_i]
+    encname = ENCS[enc_i][0]
+    crv = CURVES[curve_i]
+    key = JWKRegistry.import_key(dict(R.test_key(crv), kid="r1"))
+    sender = JWKRegistry.import_key(R._ephemeral(crv)) if alg.startswith("ECDH-1PU") else None
+    mine = dict(R._ephemeral(crv))
+    epk = dict(mine) if priv else {k: v for k, v in mine.items() if k != "d"}
+    reg = JWERegistry(algorithms=ALL_NAMES)
+    pt = b"epk-plaintext"
+    try:
+        if ser == 0:
+            tok = jwe.encrypt_compact({"alg": alg, "enc": encname, "epk": epk}, pt, key, registry=reg, sender_key=sender)
+            headers = [R.json.loads(R.b64d(tok.split(".")[0]))]
+            text = tok
+        else:
+            obj = (FlattenedJSONEncryption if ser == 1 else GeneralJSONEncryption)({"enc": encname}, pt)
+            obj.add_recipient({"alg": alg, "epk": epk}, key)
+            tok = jwe.encrypt_json(obj, None, registry=reg, sender_key=sender)
+            headers = [R.json.loads(R.b64d(tok["protected"])), tok.get("unprotected") or {}, tok.get("header") or {}] + \
+                      [r.get("header") or {} for r in tok.get("recipients", [])]
+            text = R.json.dumps(tok)
+    except Exception as e:  # noqa
+        return {"violated": False, "detail": "real code refused to encrypt with a caller-supplied epk: %r" % (e,)}
+    leaks = ["header member epk.%s" % m for h in headers for m in (h.get("epk") or {}) if m in ice.PRIVATE_NAMES]
+    if "d" in mine and mine["d"] in text:
+        leaks.append("the base64url of the caller key's d appears in the token")
+    return {"violated": bool(leaks), "key": "c12-caller-epk", "detail": "alg=%s %s %s, the caller's header carries a %s epk JWK: %s" %
+            (alg, crv, ["compact", "flattened", "general"][ser], "PRIVATE" if priv else "public", leaks or "no private material in the token")}
+
+
 def replay(func, call):
     import warnings, os, json
     warnings.simplefilter("ignore")
@@ -759,6 +830,8 @@ def replay(func, call):
         return replay_shared_alg(*args)
     elif func == "explicit_kid":
         return replay_explicit_kid(*args)
+    elif func == "caller_epk":
+        return replay_caller_epk(*args)
     elif func == "two_recipients":
         alg_i, alg2_i, enc_i, pt, aad = args
         ser, n_rec, hdr_where = 2, 2, 2
